@@ -259,7 +259,8 @@ func setLeaf(dst reflect.Value, v *VD) {
 	case reflect.Uint, reflect.Uint8, reflect.Uint16, reflect.Uint32, reflect.Uint64:
 		dst.SetUint(canonToU64(v.V))
 	case reflect.Float32:
-		dst.SetFloat(float64(bitsToF32(v.V)))
+		// not via float64: the conversion would quieten signalling NaNs
+		*(*float32)(unsafePointer(dst)) = bitsToF32(v.V)
 	case reflect.Float64:
 		dst.SetFloat(bitsToF64(v.V))
 	default:
@@ -359,7 +360,12 @@ func describe(rv reflect.Value) VD {
 	case reflect.Uint, reflect.Uint8, reflect.Uint16, reflect.Uint32, reflect.Uint64:
 		d = leafVD("int", rv.Kind().String(), canonU(rv.Uint()))
 	case reflect.Float32:
-		f := float32(rv.Float())
+		a := rv
+		if !a.CanAddr() {
+			a = reflect.New(rv.Type()).Elem()
+			a.Set(rv)
+		}
+		f := *(*float32)(unsafePointer(a)) // bit exact, see setLeaf
 		d = leafVD("f32", "float32", f32bits(f))
 		d.I = floatInt(float64(f))
 	case reflect.Float64:
